@@ -7,6 +7,7 @@ from (never a re-parse of the text, never a constant imported from psutil).
 """
 import ctypes
 import os
+import sys
 import random
 import re
 import warnings
@@ -155,7 +156,7 @@ def render_vmstat(case):
     tail = ["pgalloc_dma 0\n", "pgfree 29383756\n", "pgfault 31266312\n", "swap_ra 0\n", "swap_ra_hit 0\n"]
     mid = []
     if v.get("swp") is not None:
-        mid = ["pswpin %d\n" % v["swp"][0], "pswpout %d\n" % v["swp"][1]]
+        mid = [("pswpin %d\n" if i == 0 else "pswpout %d\n") % x for i, x in enumerate(v["swp"]) if x is not None]
         if layout.endswith("rev"):
             mid.reverse()
     if layout.startswith("last"):
@@ -188,6 +189,10 @@ def exhaustive_cases():
         for zones in ([72, 14790, 6255], None):
             out.append(dict(mem=mem, zones=zones, zstyle=0, vmstat=dict(swp=[256450, 465508]), filler=True,
                             origin="exh"))
+    mem = dict(BASE_PROFILE)
+    for swp in ([5, None], [None, 7], [0, None], [None, 0]):
+        for layout in ("full", "last", "first", "only", "lastrev", "onlyrev", "fullrev"):
+            out.append(dict(mem=mem, zones=None, zstyle=0, vmstat=dict(swp=swp, layout=layout), filler=True, origin="exh"))
     return out
 
 
@@ -284,6 +289,8 @@ def gen_case(rng):
         if rng.random() < 0.85:
             swp = [rng.choice([0, rng.randrange(0, 10**6), rng.randrange(0, 2**38)]),
                    rng.choice([0, rng.randrange(0, 10**6), rng.randrange(0, 2**38)])]
+        if swp is not None and rng.random() < 0.12:
+            swp[rng.randrange(2)] = None          # a table that carries only one of the two counters
         vm = dict(swp=swp)
         if rng.random() < 0.3:
             vm["layout"] = rng.choice(["last", "first", "only", "lastrev", "onlyrev", "fullrev"])
@@ -542,7 +549,19 @@ def check_swap(case, got, wlist, pagesize, sys_before, sys_after, acc):
     vm = case["vmstat"]
     acc.count("swap_comparisons", 2)
     acc.count("warning_sets_compared")
-    if vm is not None and vm.get("swp") is not None:
+    if vm is not None and vm.get("swp") is not None and None in vm["swp"] and vm["swp"] != [None, None]:
+        # one counter of the two: the metric whose counter is absent is 0 and a RuntimeWarning names it; the other one is
+        # either its counter, or - the documented joint fallback - 0 with the warning naming it as well
+        branches.add("fallback:one_swap_counter_unavailable")
+        for f, x in zip(("sin", "sout"), vm["swp"]):
+            if x is None:
+                if vals[f] != 0:
+                    viols.append(("swap_sin_sout_wrong:lone_counter", f"{f} unavailable, want 0: {ctx}"))
+                if f not in names:
+                    viols.append(("swap_warning_missing:lone_counter", f"{f} unavailable but no RuntimeWarning names it: {ctx}"))
+            elif not (vals[f] == x * pagesize or (vals[f] == 0 and f in names)):
+                viols.append(("swap_sin_sout_wrong:lone_counter", f"{f} want {x * pagesize} (or 0 with a warning naming it): {ctx}"))
+    elif vm is not None and vm.get("swp") is not None and vm["swp"] != [None, None]:
         want = (vm["swp"][0] * pagesize, vm["swp"][1] * pagesize)
         if (vals["sin"], vals["sout"]) != want:
             viols.append(("swap_sin_sout_wrong", f"sin/sout want {want}: {ctx}"))
@@ -615,7 +634,7 @@ def run_case(case, acc):
     branches = set()
     with vk:
         with warnings.catch_warnings(record=True) as wl:
-            warnings.simplefilter("always")
+            _record_all()
             try:
                 got = ps.virtual_memory()
             except Exception as e:  # noqa: BLE001
@@ -630,7 +649,7 @@ def run_case(case, acc):
             reads[0] = 0                 # swap_memory() is a call of its own: its first read is the current snapshot again
         sys_before = sysinfo_swap()
         with warnings.catch_warnings(record=True) as wl:
-            warnings.simplefilter("always")
+            _record_all()
             try:
                 got = ps.swap_memory()
             except Exception as e:  # noqa: BLE001
@@ -647,6 +666,13 @@ def run_case(case, acc):
     nontrivial = any(b.startswith("clamp") or b.startswith("fallback:available") or b.startswith("fallback:legacy")
                      or b in ("fallback:swap_sysinfo", "fallback:sin_sout_unavailable") for b in branches)
     acc.case(case, nontrivial, viols)
+
+
+def _record_all():
+    """record every warning - except what the interpreter's own options turned into errors (-bb), which stays an error"""
+    warnings.simplefilter("always")
+    if sys.flags.bytes_warning >= 2:
+        warnings.simplefilter("error", BytesWarning)
 
 
 def run_threads_case(case, acc):
@@ -676,12 +702,20 @@ def plan(tier, seed):
     for s, c in harness.split_range(n, 15 if tier == "quick" else 48):
         shards.append(dict(kind="gen", seed=seed, start=s, count=c))
     shards.append(dict(kind="threads", seed=seed, count=40 if tier == "quick" else 1500))
+    # the same calls in an interpreter started with -bb (str() of a bytes object is an error there): "the calls still succeed"
+    shards.append(dict(kind="exh", pyflags=["-bb"]))
+    for s, c in harness.split_range(6000 if tier == "quick" else 200_000, 2 if tier == "quick" else 6):
+        shards.append(dict(kind="gen", seed=seed, start=n + s, count=c, pyflags=["-bb"]))
     return shards
 
 
 def run_shard(shard):
     acc = harness.Acc()
     setup()
+    if shard.get("pyflags"):
+        if sys.flags.bytes_warning < 2:
+            raise RuntimeError("the -bb shard runs without the flag: the interpreter option did not take effect")
+        acc.count("shards_run_under_python_bb")
     if shard["kind"] == "threads":
         for i in range(shard["count"]):
             case = gen_case(harness.rng_for(shard["seed"], "c08t", i))
